@@ -165,11 +165,24 @@ def _run(ctx, r, idx, aw, bench, w):
 				return "clock link list holds %d links, %d clock-owning transceivers are running" % (len(links), len(want))
 		return None
 
+	# sometimes the L1 of one clock-owning transceiver does not listen on its clock port (trxcon's clock socket
+	# may not be open yet): the indications for it are lost, everybody else must be served all the same
+	deaf = None
+	cands = [i for i, nd in enumerate(bench.nodes) if nd.l1_clck is not None]
+	if cands and r.random() < 0.3:
+		deaf = r.choice(cands)
+		bench.nodes[deaf].l1_clck.close()
+		ctx.count("configurations_with_a_closed_l1_clock_port")
+
 	def ticks(k):
 		""" release k ticks of the real clock thread and check every clock port """
 		for nd in bench.nodes:
 			nd.rx_clck()
+		log_from = len(aw.net.log)
 		if not aw.run_ticks(k):
+			if not aw.worker_alive():
+				return "the clock generator's thread died while %d transceivers were running: %s" % (
+					len(owners_running()), sim.THREAD_ERRORS[-1] if sim.THREAD_ERRORS else "no exception recorded")
 			return "clock thread did not complete %d ticks" % k
 		want = []
 		if clock.running:
@@ -182,6 +195,11 @@ def _run(ctx, r, idx, aw, bench, w):
 			got = nd.rx_clck()
 			m = bench.models[i]
 			exp = want if (m.has_clock and m.running) else []
+			if i == deaf:
+				# nobody listens: what was sent towards that port is taken from the network log
+				dst = nd.l1_clck.addr
+				got = [e[3] for e in aw.net.log[log_from:] if e[2] == dst and not e[4]]
+				ctx.count("indications_sent_to_a_closed_port", len(got))
 			ctx.count("clock_ports_checked")
 			if exp:
 				ctx.count("clock_indications_expected", len(exp))
